@@ -672,6 +672,271 @@ def gen_conc(rng):
     return pop, bop, rng.choice([0, 0, 1, 2])
 
 
+# ------------------------------------------------------------------------------------------------
+# caller scenario: threads calling through a proxy while the owner removes the object / stops the context
+# ------------------------------------------------------------------------------------------------
+def scenario_call(s, op, callers, remote, line_yields):
+    """op: "remove" | "stop" performed by the creating thread on object o1 while `callers` = [(how, method)] run in their own
+    managed threads; how: "block" (proxy.m(i)) | "nb" (proxy.rpc_nonblocking.m(i).wait()); method: "ping" | "boom" (raises)
+    | "islocked" (a lock request).  remote: the callers use a proxy of a second context connected over the fake network.
+    No rpc_timeout anywhere: a call that is never answered shows up as a deadlock.  Returns outcomes + effect labels."""
+    import threading as real_threading
+    import warnings
+    import qmi  # noqa
+    import qmi.core.context as C
+    import qmi.core.rpc as R
+    import qmi.core.thread as TH
+    from qmi.core.config_defs import CfgQmi, CfgContext
+    logging.disable(logging.CRITICAL)
+    warnings.simplefilter("ignore")
+    real_threading.excepthook = lambda args: None
+    labels = []
+    st = {"rel": 0, "exec": [], "ctid": {}, "fut": {}}
+    obs = {"outcomes": {}, "labels": labels, "main": None, "phase": "setup"}
+    s.obs = obs
+    s.recording = False
+
+    class Obj(R.QMI_RpcObject):
+        @R.rpc_method
+        def ping(self, i):
+            st["exec"].append(i)
+            labels.append(("W", "exec", i))
+            return 100 + i
+
+        @R.rpc_method
+        def boom(self, i):
+            st["exec"].append(i)
+            labels.append(("W", "exec", i))
+            raise ValueError("boom")
+
+        def release_rpc_object(self):
+            st["rel"] += 1
+            labels.append(("W", "release", 0))
+
+    ctx = C.QMI_Context("d", CfgQmi(contexts={"d": CfgContext(host="127.0.0.1", tcp_server_port=TPORT)}))
+    ctx.start()
+    proxy = ctx.make_rpc_object("o1", Obj)
+    cproxy = proxy
+    cl = None
+    if remote:
+        cl = C.QMI_Context("cl", CfgQmi())
+        cl.start()
+        cl.connect_to_peer("d", "127.0.0.1:%d" % TPORT)
+        cproxy = cl.get_rpc_object_by_name("d.o1")
+    manager = ctx._rpc_object_map["o1"]
+    wthread = manager._rpc_thread
+
+    def role():
+        t = s.current.tid
+        return "S" if t == 0 else st["ctid"].get(t, "T%d" % t)
+
+    def req_caller(msg):
+        a = getattr(msg, "method_args", None)
+        if a:
+            return a[0]
+        return st["fut"].get(msg.source_address.object_id)
+
+    # ---- effects observed from outside: the stop lock's regions, the hand-over, replies, unregister, shutdown, join -----
+    class LogLock:
+        def __init__(self, inner):
+            self.inner = inner
+
+        def __enter__(self):
+            self.inner.__enter__()
+            return self
+
+        def __exit__(self, *a):
+            if role() == "S":
+                labels.append(("S", "stopregion", 0))     # `with self._stop_lock: self._running = False` is leaving
+            return self.inner.__exit__(*a)
+
+        def acquire(self, *a, **k):
+            return self.inner.acquire(*a, **k)
+
+        def release(self):
+            return self.inner.release()
+    poke(manager, "_stop_lock", LogLock(manager._stop_lock))
+    orig_hm = manager.handle_message
+
+    def hm(message):
+        i = req_caller(message)
+        st["fut"][message.source_address.object_id] = i
+        try:
+            orig_hm(message)
+        except BaseException:
+            labels.append(("C", "refused", i))
+            raise
+    manager.handle_message = hm
+    orig_push = wthread.push_rpc_request
+
+    def push(req):
+        orig_push(req)
+        labels.append(("C", "accept", req_caller(req)))
+    wthread.push_rpc_request = push
+    orig_shutdown = wthread.shutdown
+
+    def shutdown():
+        orig_shutdown()
+        labels.append((role(), "shut", 0))
+    wthread.shutdown = shutdown
+    orig_mstop = manager.stop
+
+    def mstop():
+        orig_mstop()
+        labels.append((role(), "joined", 0))
+    manager.stop = mstop
+    router = ctx._message_router
+    orig_unreg = router.unregister_message_handler
+
+    def unreg(h):
+        orig_unreg(h)
+        if h is manager:
+            labels.append((role(), "unreg", 0))
+    router.unregister_message_handler = unreg
+    orig_fhm = R.QMI_RpcFuture.handle_message
+
+    def fhm(self, message):
+        i = st["fut"].get(self.address.object_id)
+        if self._context is ctx or not remote:
+            kind = "err" if type(message).__name__ == "QMI_ErrorReplyMessage" else "reply"
+            if s.current.tid == st.get("wtid"):
+                labels.append(("W", "reject" if kind == "err" else "answer", i))
+            elif s.current.tid == 0:
+                labels.append(("S", "sweep", i))
+        return orig_fhm(self, message)
+    R.QMI_RpcFuture.handle_message = fhm
+    st["wtid"] = s.by_real[wthread].tid
+
+    if line_yields:
+        dsched.enable_line_yields([R.RpcObjectManager.handle_message, R.RpcObjectManager.stop, R._RpcThread.push_rpc_request,
+                                   R._RpcThread.run, R._RpcThread._reject_remaining_requests, C.QMI_Context.remove_rpc_object])
+
+    def caller(i, how, method):
+        try:
+            if method == "islocked":
+                r = cproxy.is_locked()
+            elif how == "nb":
+                r = getattr(cproxy.rpc_nonblocking, method)(i).wait()
+            else:
+                r = getattr(cproxy, method)(i)
+            obs["outcomes"][str(i)] = ["val", r if isinstance(r, (int, bool)) else repr(r)]
+        except dsched.Deadlock:
+            raise
+        except BaseException as e:
+            obs["outcomes"][str(i)] = ["exc", type(e).__name__]
+        labels.append(("C", "done", i))
+
+    obs["lab0"] = len(labels)
+    obs["phase"] = "race"
+    s.recording = True
+    ths = []
+    for i, (how, method) in enumerate(callers):
+        t = real_threading.Thread(target=caller, args=(i, how, method), name="caller%d" % i)
+        t.start()
+        st["ctid"][s.by_real[t].tid] = "C%d" % i
+        ths.append(t)
+    try:
+        if op == "remove":
+            ctx.remove_rpc_object(proxy)
+        else:
+            ctx.stop()
+        obs["main"] = ["ok"]
+    except dsched.Deadlock:
+        raise
+    except BaseException as e:
+        obs["main"] = ["exc", type(e).__name__]
+    obs["phase"] = "join"
+    for t in ths:
+        t.join()
+    s.recording = False
+    obs["phase"] = "after"
+
+    def alive():
+        th = {}
+        for t in s.threads:
+            if t.state != dsched.DONE and t.tid != 0:
+                k = t.name.split(":")[-1]
+                th[k] = th.get(k, 0) + 1
+        return th
+    obs["handlers_after"] = list(router._address_to_messagehandler_map.keys())
+    obs["worker_alive"] = s.by_real[wthread].state != dsched.DONE
+    obs["rel"] = st["rel"]
+    obs["exec"] = list(st["exec"])
+    obs["reuse"] = None
+    if op == "remove":
+        try:
+            p2 = ctx.make_rpc_object("o1", Obj)
+            obs["reuse"] = ["ok"] if p2.ping(9) == 109 else ["weird"]
+        except dsched.Deadlock:
+            raise
+        except BaseException as e:
+            obs["reuse"] = ["exc", type(e).__name__]
+        try:
+            ctx.stop()
+        except BaseException as e:
+            obs["final_stop"] = ["exc", type(e).__name__]
+    if cl is not None:
+        obs["client_handlers"] = list(cl._message_router._address_to_messagehandler_map.keys())
+        cl.stop()
+    obs["threads_end"] = alive()
+    obs["labels"] = [list(x) for x in labels]
+    obs["phase"] = "done"
+    return obs
+
+
+def oracle_call(op, callers, res):
+    """C12 for calls through a proxy racing with remove_rpc_object / stop.  Returns None or (key, text)."""
+    o = res.get("obs") or {}
+    if res["status"] == "deadlock":
+        out = o.get("outcomes", {})
+        blocked = [i for i in range(len(callers)) if str(i) not in out]
+        return ("call:%s:caller-blocked" % op,
+                "after %s() %s the call(s) %r through the proxy never get an outcome (blocked forever; phase %r): %s" % (
+                    "remove_rpc_object" if op == "remove" else "stop", "returned" if o.get("main") else "was entered", blocked,
+                    o.get("phase"), [tuple(x) for x in (o.get("labels") or [])[-12:]]))
+    if res["status"] != "ok":
+        return "call:%s:%s" % (op, res["status"]), "run did not finish (%s): %s" % (res["status"], (res.get("trace") or "")[-400:])
+    if o["main"] != ["ok"]:
+        return "call:%s:main-raised:%s" % (op, o["main"][1]), "%s raised %s while calls were in flight" % (op, o["main"][1])
+    for i, (how, method) in enumerate(callers):
+        x = o["outcomes"].get(str(i))
+        if x is None:
+            return "call:%s:no-outcome" % op, "call %d has no outcome" % i
+        nexec = o["exec"].count(i)
+        if nexec > 1:
+            return "call:%s:executed-twice" % op, "call %d was executed %d times" % (i, nexec)
+        if x[0] == "val":
+            want = {"ping": 100 + i, "islocked": False}.get(method)
+            if method == "boom" or x[1] != want or (method != "islocked" and nexec != 1):
+                return "call:%s:wrong-value" % op, "call %d (%s) returned %r, executed %d times" % (i, method, x[1], nexec)
+        else:
+            ok = {"QMI_MessageDeliveryException"} | ({"ValueError"} if method == "boom" else set())
+            if x[1] not in ok:
+                return "call:%s:outcome:%s" % (op, x[1]), "call %d (%s) ended with %s (not a value, the method's exception or a delivery error)" % (i, method, x[1])
+            if x[1] == "ValueError" and nexec != 1:
+                return "call:%s:wrong-value" % op, "call %d raised the method's exception without executing" % i
+    left = [h for h in o["handlers_after"] if h.startswith("$future") or h == "o1"]
+    if left:
+        return "call:%s:handlers-left" % op, "after %s returned and all callers finished the handler table still holds %r" % (op, left)
+    if o["worker_alive"] or o["rel"] != 1:
+        return "call:%s:worker" % op, "worker thread of the removed object alive=%r, release calls %d" % (o["worker_alive"], o["rel"])
+    if op == "remove" and o["reuse"] != ["ok"]:
+        return "call:remove:name-not-reusable", "the name can not be used again after remove: %r" % (o["reuse"],)
+    if o.get("final_stop") or o["threads_end"]:
+        return "call:%s:leftover" % op, "final stop %r, threads left %r" % (o.get("final_stop"), o["threads_end"])
+    if [h for h in o.get("client_handlers", []) if h.startswith("$future")]:
+        return "call:%s:client-handlers-left" % op, "the calling context still holds %r" % (o["client_handlers"],)
+    return None
+
+
+def gen_call(rng):
+    op = rng.choice(["remove", "remove", "stop"])
+    n = rng.choice([1, 1, 2, 2, 3])
+    callers = [(rng.choice(["block", "nb"]), rng.choice(["ping", "ping", "ping", "boom", "islocked"])) for _ in range(n)]
+    remote = op == "remove" and rng.random() < 0.25
+    return op, callers, remote
+
+
 def _preload():
     import qmi  # noqa
     import qmi.core.context, qmi.core.context_singleton, qmi.core.rpc, qmi.core.messaging  # noqa
